@@ -136,6 +136,24 @@ def _is_finite(value):
     return True
 
 
+def _writable_id(rpcid, encoding="UTF-8"):
+    """
+    Returns the given request ID if it can be written in a response, else
+    None: an ID loaded from a __jsonclass__ member can be an object that
+    can't be converted back to JSON, and the error about it must not make
+    the whole response (of the whole batch) fail in turn
+
+    :param rpcid: A request ID
+    :param encoding: Encoding of the response
+    :return: The request ID, or None
+    """
+    try:
+        jsonrpclib.jdumps(rpcid, encoding)
+        return rpcid
+    except Exception:
+        return None
+
+
 def validate_request(request, json_config):
     """
     Validates the format of a request dictionary
@@ -171,7 +189,7 @@ def validate_request(request, json_config):
         fault = Fault(
             -32600,
             "Request {0} invalid.".format(request),
-            rpcid=rpcid,
+            rpcid=_writable_id(rpcid),
             config=json_config,
         )
         _logger.warning("No version in request: %s", fault)
@@ -194,7 +212,7 @@ def validate_request(request, json_config):
         fault = Fault(
             -32600,
             "Invalid request parameters or method.",
-            rpcid=rpcid,
+            rpcid=_writable_id(rpcid),
             config=json_config,
         )
         _logger.warning("Invalid request content: %s", fault)
@@ -443,18 +461,12 @@ class SimpleJSONRPCDispatcher(SimpleXMLRPCDispatcher, object):
     def __writable_id(self, rpcid):
         """
         Returns the given request ID if it can be written in a response, else
-        None: an ID loaded from a __jsonclass__ member can be an object that
-        can't be converted back to JSON, and the error about it must not make
-        the whole response (of the whole batch) fail in turn
+        None (see _writable_id)
 
         :param rpcid: A request ID
         :return: The request ID, or None
         """
-        try:
-            jsonrpclib.jdumps(rpcid, self.encoding)
-            return rpcid
-        except Exception:
-            return None
+        return _writable_id(rpcid, self.encoding)
 
     def _dispatch(self, method, params, config=None):
         """
